@@ -31,6 +31,9 @@ package proposal
 //@ ghost proposalStatusWrites int
 //@ ghost proposalCreates int
 //@ ghost lastProposalGetOK bool
+// what the last successful read of a proposal showed of its recorded rollback information
+//@ ghost readRollbackIndex map[string]int
+//@ ghost readRollbackValues map[string]int
 // which proposals this step has read, and in which state it found them
 //@ ghost seenValidated map[string]bool
 //@ ghost seenInitialized map[string]bool
@@ -63,10 +66,11 @@ package proposal
 //@ spec proposalInv(p *configapi.Proposal) bool = statesInRange(p) && (validateState(p) == 2 ==> p.Status.Phases.Validate.Failure != nil) && (applyState(p) == 2 ==> p.Status.Phases.Apply.Failure != nil)
 
 //@ iface Store.Get(ctx, id) (result, err)
-//@   modifies lastProposalGetOK, seenValidated[id], seenInitialized[id], seenCommitted[id], seenApplied[id], seenAborted[id]
+//@   modifies lastProposalGetOK, readRollbackIndex[id], readRollbackValues[id], seenValidated[id], seenInitialized[id], seenCommitted[id], seenApplied[id], seenAborted[id]
 //@   ensures lastProposalGetOK == (err == nil)
 //@   ensures seenInitialized[id] == (err == nil && initState(result) >= 1) && seenValidated[id] == (err == nil && validateState(result) == 1) && seenCommitted[id] == (err == nil && commitState(result) == 1) && seenApplied[id] == (err == nil && applyState(result) == 1) && seenAborted[id] == (err == nil && abortState(result) == 1)
 //@   ensures err == nil ==> result.ID == id
+//@   ensures err == nil ==> readRollbackIndex[id] == result.Status.RollbackIndex && readRollbackValues[id] == result.Status.RollbackValues
 //@   ensures err != nil ==> result == nil
 //@   ensures err == nil ==> result != nil && fresh(result) && proposalSnapshotted(result) && proposalWellFormed(result) && proposalInv(result) && proposalKeyed(result)
 
